@@ -20,7 +20,7 @@ PROPERTIES = ["C03"]
 CLAUSE_PROPS = {"raw-exception": "C07", "error-code": "C03", "rowcount": "C04", "status-row": "C04"}
 
 SPEC = {
-    "runs": {"quick": 700, "thorough": 50000},
+    "runs": {"quick": 700, "thorough": 20000},
     "wall": {"quick": 600, "thorough": 7200},
     "chunk": 10,
     "level": "exploration",
